@@ -46,14 +46,20 @@ Fixpoint corr_hist (f : list Z -> op -> obs) (i : Z) (s : list Z) (h : list (op 
 
 Definition corr_codes (c : case) : list Z :=
   let '(t, vk, init, h) := c in corr_hist (step_of t vk) 0 init h.
+(* a List trait value may refuse an operation for length reasons (TraitError, list untouched, nobody notified; also the
+   default maxlen = sys.maxsize, e.g. `*= 2**100` on a non-empty list): such steps are C04's business *)
 Definition law_codes (c : case) : list Z :=
-  let '(t, vk, init, h) := c in law_hist (vld_of vk) 0 init h.
+  let '(t, vk, init, h) := c in
+  match t with
+  | TPlain => law_hist (vld_of vk) 0 init h
+  | TObj _ _ => law_hist_tlo (vld_of vk) 0 init h
+  end.
 
 (* ---- single-operation grids generated inside Coq (thorough tier) ---- *)
 (* canonical integer encoding of an observation; the driver computes the same *)
 Definition enc_list (l : list Z) : list Z := Z.of_nat (length l) :: l.
 Definition enc_exn (e : exn) : Z :=
-  match e with IndexError => 1 | ValueError => 2 | TraitError => 3 | TypeError => 4 | OtherError => 5 end.
+  match e with IndexError => 1 | ValueError => 2 | TraitError => 3 | TypeError => 4 | OtherError => 5 | OverflowError => 6 end.
 Definition enc_event (ev : event) : list Z :=
   let '(i, r, a) := ev in
   (match i with I n => [0; n] | S3 s e k => [1; s; e; k] end) ++ enc_list r ++ enc_list a.
@@ -76,7 +82,11 @@ Definition grid_ops (b : Z) : list op :=
   flat_map (fun i => [DelInt i; SetInt i 99; SetInt i 199; SetInt i 200; Insert i 99; Insert i 200;
                       Pop (Some i); Imul i; Remove (10 + i); InsertX i 99; PopX i; ImulX i]) (zr (- b) b)
   ++ [Pop None; Append 5; Append 105; Append 200; Extend [5; 6]; Extend []; Extend [5; 200]; Iadd [5; 106];
-      Iadd []; SortPos; ExtendN; SetSliceN (None, None, None); SetSliceN (Some 1, Some 3, None); SetSliceN (None, None, Some 2);
+      Iadd []; Insert 1267650600228229401496703205376 99; Insert (-1267650600228229401496703205376) 200;
+      Insert 9223372036854775807 99; Insert (-9223372036854775808) 99; Insert 9223372036854775808 99;
+      Pop (Some 1267650600228229401496703205376); Pop (Some (-9223372036854775809)); Imul 1267650600228229401496703205376;
+      Imul (-1267650600228229401496703205376); InsertX 9223372036854775808 99; PopX (-9223372036854775809);
+      SortPos; ExtendN; SetSliceN (None, None, None); SetSliceN (Some 1, Some 3, None); SetSliceN (None, None, Some 2);
       SetSliceN (None, None, Some 0); ImulQ 1 2; ImulQ 5 2; ImulQ 2 1; ImulQ (-1) 2; Clear; Reverse; Sort 0 false; Sort 0 true; Sort 3 false; Sort 3 true; Sort 2 true]
   ++ flat_map (fun sl => DelSlice sl :: map (SetSlice sl) values) (slices b).
 
@@ -141,7 +151,9 @@ Definition copy_result (t : target) (vk : vkind) (k : copykind) (l : list Z) : r
   | TObj mn mx =>
       match k with
       | CopyDeep => (Ok l, (TObj mn mx, VAll))
-      | _ => (Ok (map vpart l), (TObj 0 None, VAll))  (* pickle; copy.copy of a TraitListObject is not generated *)
+      (* pickle (copy.copy of a TraitListObject is not generated): trait = None, no length check at all -- not even the
+         default maxlen = sys.maxsize that [None] stands for *)
+      | _ => (Ok (map vpart l), (TObj 0 (Some (2 ^ 200)), VAll))
       end
   end.
 
@@ -213,7 +225,7 @@ Fixpoint law_react_hist (vld : Z -> option Z) (i : Z) (s : list Z) (h : list (op
   match h with
   | [] => []
   | (o, ob1, r) :: t =>
-      at_step i 0 (law_step vld s o ob1)
+      (if refused s ob1 then [] else at_step i 0 (law_step vld s o ob1))
       ++ (match r with Some ob2 => at_step i 20 (law_step vld (o_after ob1) (Pop (Some 0)) ob2) | None => [] end)
       ++ law_react_hist vld (i + 1) (match r with Some ob2 => o_after ob2 | None => o_after ob1 end) t
   end.
